@@ -152,6 +152,16 @@ def transplant(master, mit, regs, kept, ext, eit):
     return "".join(out), ratio, dropped
 
 
+def bodyless(txt):
+    """the text of one function with its body replaced by `unimplemented!()` (signature and header clauses kept)"""
+    p = Parsed(txt, "fn.rs")
+    fns = [it for _ck, it in p.walk() if it.kind == "fn"]
+    if not fns or fns[0].body_lo < 0:
+        return txt
+    it = fns[0]
+    return txt[:p.toks[it.body_lo].start] + "{\n    unimplemented!()\n}"
+
+
 def splice(prelude_src, master_src, ext_src, deferred, quarantined=()):
     master = Parsed(master_src, "annotated.rs")
     ext = Parsed(ext_src, "extracted.rs")
@@ -189,24 +199,33 @@ def splice(prelude_src, master_src, ext_src, deferred, quarantined=()):
             A = [ext.toks[k].text for k in rtok.kept_tokens(ext.toks, eit, eregs)]
             mprops = re.search(r"//\s*@props((?:\s+C\d+)+)", master.src[master.toks[it.lo].start:master.toks[it.body_lo].start] if it.body_lo >= 0 else "")
             mprops = mprops.group(1).split() if mprops else []
+            # levels: 0 verified; 1 contract kept, body not verified; 2 no contract, body kept;
+            #         3 contract kept, body text dropped (it does not compile in the extracted world);
+            #         4 no contract, body text dropped
             level = quarantined.get(name, 0) if isinstance(quarantined, dict) else (1 if name in quarantined else 0)
-            if ck in changed_types:
+            if ck in changed_types and level in (0, 1):
                 level = 2
-            if level >= 2:
+            if ck in changed_types and level == 3:
+                level = 4
+            if level in (2, 4):
                 # the contract itself no longer fits (changed type, changed signature): emit the function of
                 # /repo without any ghost text and without specification
-                txt = ("#[verifier::external_body] // @uncontracted: the contract no longer fits this function\n"
-                       + ext.src[ext.toks[eit.lo].start:ext.toks[eit.hi - 1].end])
+                txt = ext.src[ext.toks[eit.lo].start:ext.toks[eit.hi - 1].end]
+                if level == 4:
+                    txt = bodyless(txt)
+                txt = "#[verifier::external_body] // @uncontracted: the contract no longer fits this function\n" + txt
                 edits.append((master.toks[it.lo].start, master.toks[it.hi - 1].end, txt))
-                report["functions"][name] = {"status": "uncontracted", "exec_tokens": len(A), "props": mprops}
+                report["functions"][name] = {"status": "uncontracted", "exec_tokens": len(A), "props": mprops, "body_dropped": level == 4}
                 report.setdefault("uncontracted", []).append(name)
-            elif level == 1:
+            elif level in (1, 3):
                 # keep the contract (header clauses), drop every ghost region of the body, do not verify the body
                 hregs = [r for r in regs if r[1] <= it.body_lo + 1]
                 txt, ratio, dropped = transplant(master, it, hregs, kept, ext, eit)
+                if level == 3:
+                    txt = bodyless(txt)
                 txt = "#[verifier::external_body] // @quarantined: body not read by the verifier\n" + txt
                 edits.append((master.toks[it.lo].start, master.toks[it.hi - 1].end, txt))
-                report["functions"][name] = {"status": "quarantined", "exec_tokens": len(A), "props": mprops}
+                report["functions"][name] = {"status": "quarantined", "exec_tokens": len(A), "props": mprops, "body_dropped": level == 3}
             elif K == A:
                 report["functions"][name] = {"status": "exact", "exec_tokens": len(K)}
             else:
@@ -245,8 +264,11 @@ def splice(prelude_src, master_src, ext_src, deferred, quarantined=()):
         for it in new_fns:
             name = (ck + "::" if ck else "") + it.name
             report["uncontracted"].append(name)
-            texts.append("#[verifier::external_body] // @uncontracted: this function of /repo has no contract\n"
-                         + ext.src[ext.toks[it.lo].start:ext.toks[it.hi - 1].end])
+            txt = ext.src[ext.toks[it.lo].start:ext.toks[it.hi - 1].end]
+            if isinstance(quarantined, dict) and quarantined.get(name, 0) >= 1:
+                txt = bodyless(txt)  # its body does not compile in the extracted world
+                report.setdefault("bodies_dropped", []).append(name)
+            texts.append("#[verifier::external_body] // @uncontracted: this function of /repo has no contract\n" + txt)
         if top.kind == "impl":
             head = ext.src[ext.toks[top.lo].start:ext.toks[top.body_lo].end]
             tail.append(head + "\n" + "\n".join(texts) + "\n}\n")
